@@ -248,6 +248,69 @@ def run(ctx):
                 if rw.split(" ")[0] != rr.split(" ")[0]:
                     s4.violate(inp, rr[:80], rw[:80], "the outcome of scanning r changes when r follows the chunk p")
         s4.sample({"p": "nop\n  ; note\n", "r": "lda #1\n"})
-        return [s, s2, s3, s4, run_.repeat_stream()]
+        # ---- the conclusions of insert_comment_line / insert_block_comment / naked_opcode_eol_comment on the real scanner
+        s5 = core.Stream("S7-comment-opaque", "a ';' comment with an arbitrary text (quotes, braces, '/*', '*/', mnemonics, keywords, backslashes, non-ASCII) or a '/* */' comment whose body holds no '*/' (bodies starting with '/', ending with '*', spanning lines, holding ';' and quotes) put, behind arbitrary indentation, between a newline-terminated chunk p of a generated program and the following text r, or behind an instruction that stands alone ('nop   ; text'): through the real scanner the tokens that are not COMMENT tokens keep their types and texts (and their columns when the comment ends its line), exactly one COMMENT token is added, and the outcome is unchanged; non-trivial = distinct (comment kind, features of its text, outcome)")
+        words = ["'", "''", '"', "{", "}", "{{", "}}", "/*", "*/", "*", "/", ";", "lda #1", "nop", ".db 1", "rts", ".macro m() {", ":=", "\\", "\\'", "\t", "é", "日本", ".include 'x'", "0x", "[", "(", ",x", "@=", "*="]
+        naked = ["nop", "rts", "rtl", "clc", "sei", "NOP", "Rts", "inx", "pha", "xba"]
+        for i in range(160 if tier == "quick" else 2000):
+            ls = rng.choice(pool)
+            cut = rng.randrange(0, len(ls) + 1)
+            p_txt = "".join(l + "\n" for l in ls[:cut])
+            r_txt = "".join(l + "\n" for l in ls[cut:])
+            if i % 5 == 4:
+                r_txt += rng.choice(bad_tails)
+            ws = "".join(rng.choice([" ", "\t", "\n", "  "]) for _ in range(rng.randrange(0, 4)))
+            kind = i % 4
+            text = "".join(rng.choice(words + [" ", " ", "a", "z", "0"]) for _ in range(rng.randrange(0, 7)))
+            if kind in (0, 3):
+                text = text.replace("\n", " ")
+                cm = ";" + text + "\n"
+            else:
+                body = "".join(rng.choice(words + [" ", "\n", "a", ";"]) for _ in range(rng.randrange(0, 7)))
+                body = rng.choice(["", "/", "*", " "]) + body + rng.choice(["", "*", "/", " /"])
+                while "*/" in body + "*":     # no */ may start inside the body (NoClose)
+                    j = (body + "*").index("*/")
+                    body = body[:j] + body[j + 1:]
+                text = body
+                cm = "/*" + body + "*/" + rng.choice(["", "\n", " \n"])
+            if kind == 3:
+                # an instruction that stands alone, then blanks, then the comment -- against the same line without comment
+                mn = rng.choice(naked)
+                gap = "".join(rng.choice([" ", "\t"]) for _ in range(rng.randrange(1, 4)))
+                with_c = p_txt + mn + gap + cm + r_txt
+                without = p_txt + mn + rng.choice(["", " ", "\t "]) + "\n" + r_txt
+            else:
+                with_c = p_txt + ws + cm + r_txt
+                without = p_txt + r_txt
+            if not c15.real_scan("initial", p_txt).startswith("ok ") and p_txt:
+                s5.count("chunk-does-not-scan")
+                continue
+            ra, rb = c15.real_scan("initial", with_c), c15.real_scan("initial", without)
+            s5.cases += 1
+            feats = tuple(sorted(w for w in ("'", "/*", "{", ";", "\n", "\\") if w in text))
+            s5.nontrivial.add((kind, feats, rb[:3]))
+            s5.count(("line", "block", "block", "naked-eol")[kind] + ":" + rb.split(" ")[0])
+            inp = {"with_comment": with_c, "without": without}
+            if rb.startswith("ok "):
+                if not ra.startswith("ok "):
+                    s5.violate(inp, "scans like the text without the comment", ra[:200], "a comment changes the outcome of the scan")
+                    continue
+                ta, tb = parse_ok(ra), parse_ok(rb)
+                ca = [t for t in ta if t[0] == "COMMENT"]
+                cb = [t for t in tb if t[0] == "COMMENT"]
+                cols = cm.endswith("\n")     # what follows the comment starts on a fresh line: columns are kept too
+                ka = [(t[0], t[1], t[3] if cols else 0) for t in ta if t[0] != "COMMENT"]
+                kb = [(t[0], t[1], t[3] if cols else 0) for t in tb if t[0] != "COMMENT"]
+                if ka != kb or len(ca) != len(cb) + 1:
+                    s5.violate(inp, {"non-comment tokens": len(kb), "comment tokens": len(cb) + 1}, {"non-comment tokens": len(ka), "comment tokens": len(ca), "first difference": next(((x, y) for x, y in zip(ka, kb) if x != y), None)},
+                               "the text of a comment is looked at: a comment between lines (or behind an instruction that stands alone) changes the other tokens, or is not exactly one COMMENT token")
+            elif rb.startswith("err "):
+                wa, wb = ra.split(" "), rb.split(" ")
+                if wa[:2] != wb[:2] or (len(wa) > 3 and len(wb) > 3 and wa[3] != wb[3]):
+                    s5.violate(inp, " ".join(wb[:4]), " ".join(wa[:4]), "a lexical error behind a comment is reported differently (message / column) than without the comment")
+            elif ra.split(" ")[0] != rb.split(" ")[0]:
+                s5.violate(inp, rb[:80], ra[:80], "a comment changes the outcome of the scan")
+        s5.sample({"with_comment": "nop\n  ; it's /* {\nlda #1\n", "without": "nop\nlda #1\n"})
+        return [s, s2, s3, s4, s5, run_.repeat_stream()]
     finally:
         run_.close()
